@@ -119,6 +119,19 @@ func (c *Ctx) collectArm(cc *ast.CaseClause) *armFacts {
 				case token.EQL:
 					if s, ok := cst(x.Y); ok {
 						af.cmpConsts = append(af.cmpConsts, s)
+					} else if s, ok := cst(x.X); ok {
+						af.cmpConsts = append(af.cmpConsts, s)
+					}
+				}
+			case *ast.SwitchStmt:
+				// switch i { case C: … } tests i == C
+				if x.Tag != nil {
+					for _, cl := range x.Body.List {
+						for _, e := range cl.(*ast.CaseClause).List {
+							if s, ok := cst(e); ok {
+								af.cmpConsts = append(af.cmpConsts, s)
+							}
+						}
 					}
 				}
 			case *ast.AssignStmt:
